@@ -1063,8 +1063,10 @@ pub struct GlobalData {
     pub final_configuration: Option<Vec<String>>,
     pub environment: HashMap<String, DataArc>,
 
-    /// Stores any delayed send (with a "sendid"), Key: sendid
-    pub delayed_send: HashMap<String, Guard>,
+    /// Stores any delayed send (with a "sendid"), Key: sendid.\
+    /// Several pending sends can share one sendid, each is identified by the platform id it
+    /// got when it was scheduled.
+    pub delayed_send: HashMap<String, Vec<(u32, Guard)>>,
     pub io_processors: HashMap<String, Arc<Mutex<Box<dyn EventIOProcessor>>>>,
 
     pub data: DataStore,
